@@ -53,7 +53,14 @@ func NewFloatListDecoder(reuseRecords bool) *FloatListDecoder {
 	return d
 }
 
+// maxFloatListPrealloc bounds the capacity reserved up front for a list whose length was read
+// from (possibly hostile) input: beyond it the slice grows as the numbers actually arrive
+const maxFloatListPrealloc = 1024
+
 func (d *FloatListDecoder) makeFloatSlice(n uint32) []float64 {
+	if n > maxFloatListPrealloc {
+		n = maxFloatListPrealloc
+	}
 	if d.sl == nil {
 		return make([]float64, 0, n)
 	}
